@@ -1,10 +1,17 @@
 """C04 - A live pod's IP is never released, re-keyed or handed on."""
 import plugincheck, ipamcheck
 
-THEOREMS = ["live_bound_owned", "winv_preserved", "live_ip_survives_step", "late_event_ignored"]
+THEOREMS = ["live_bound_owned", "winv_preserved", "live_ip_survives_step", "late_event_ignored",
+            "pod_sync_object_current", "pod_sync_object_earlier", "stale_sync_keeps_owners", "stale_sync_skipped",
+            "stale_sync_repaired", "stale_sync_of_gone_pod"]
 REFUTED = ["live_bound_owned_refuted_late_event_old", "live_bound_owned_refuted_stale_lister_old",
-           "live_bound_owned_refuted_mixed_uid_old", "late_event_other_key"]
+           "live_bound_owned_refuted_mixed_uid_old", "late_event_other_key", "stale_sync_refuted_old"]
 KNOWN_FINDINGS = [
+    {"id": "F16", "status": "fixed", "commit": "08c3290", "tag": "c04-stale-pod-ip-sync",
+     "what": "fixed: property=C04 08c3290 the pod-IP sync (periodic pass walking an earlier list, or a pod update handler running "
+             "late) used the pod OBJECT it was handed: an earlier incarnation of a re-created pod got its released IP back under the "
+             "shared key with the OLD uid, and the next resync item for that IP unbound the key - releasing the running pod's IP "
+             "(witness stale_sync_refuted_old; scenario F16-stale-pod-ip-sync; found through round-3 seeds C01c/C04c)"},
     {"id": "F1", "status": "fixed", "commit": "53acf3f", "tag": "c04-late-event",
      "what": "fixed: property=C04 53acf3f unbind never compared the event pod's UID with the UID the IP is stored for: a late "
              "delete/finish event of an earlier same-named pod released / wiped / cloud-unassigned the live pod's IP (witness "
